@@ -104,14 +104,14 @@ def body(run, a):
     configs = ['release-std', 'release-nosimd', 'release-nostd-sse2']
     for c in configs + ['release-nounroll']:
         module(c, run)
-    n = len(c03.entries('quick'))
-    sel = [i for i, e in enumerate(c03.entries('quick')) if e[0] in ('chacha:refill4:dr=10', 'chacha:refill1:dr=4', 'chacha:ietf:seek+apply', 'blake256:update+finalize', 'blake512:update+finalize')]
+    n = len(c03.entries(run.tier))
+    sel = [i for i, e in enumerate(c03.entries(run.tier)) if e[0] in ('chacha:refill4:dr=10', 'chacha:refill1:dr=4', 'chacha:ietf:seek+apply', 'blake256:update+finalize', 'blake512:update+finalize')]
     check.parallel(run, c03.one, [(i, configs) for i in sel])
     check.parallel(run, c09.case, [(c, b) for c in ('release-std', 'release-nounroll') for b in (256, 512, 1024)])
     check.parallel(run, c10.case, [(c, b, o) for c in ('release-std', 'release-nounroll') for b in (256, 512, 1024) for o in ('encdec', 'decenc')])
     run.canary('the lattice enumeration covers every declared feature of every crate (%d points)' % len(points), len(points) >= 40)
     run.bounds = {'lattice': '%d points = power set of the declared features of each of the 9 crates + the default set' % len(points),
-                  'toolchain / target': 'pinned stable toolchain, x86_64-unknown-linux-gnu', 'clause 2 entries': [c03.entries('quick')[i][0] for i in sel] + ['threefish 256/512/1024 encryption and both round trips, unrolled vs no_unroll'],
+                  'toolchain / target': 'pinned stable toolchain, x86_64-unknown-linux-gnu', 'clause 2 entries': [c03.entries(run.tier)[i][0] for i in sel] + ['threefish 256/512/1024 encryption and both round trips, unrolled vs no_unroll'],
                   'outside': 'other targets; features of dependencies outside the workspace'}
     run.assumptions += ['clause 1 is decided by rustc (a configuration that does not compile cannot be encoded); clause 2 by symbolic execution + z3 as in C03/C09']
 
